@@ -51,7 +51,9 @@ def _sample_check(predict, p, seeds, what):
     first = None
     from vf import gen
 
-    for s in seeds:
+    for k_, s in enumerate(seeds):
+        if k_ % 2:
+            s = np.int64(s)  # seeds often come out of numpy (np.arange, randint): same stream as the Python int
         g0 = gen.global_state()
         out = np.asarray(predict(DRAW_TILES, s)).reshape(-1)
         if gen.global_state() != g0:
